@@ -157,9 +157,10 @@ def conditions(tier):
         for o in (['default'] if quick else ['default', 'verb_strict', 'remove_source']):
             pre = ['len(s) == %d' % len(sk)] + ['s[%d] == chr(%d)' % (i, ord(ch)) for i, ch in enumerate(sk) if ch != '?']
             heavy = quick and nm in ('frac', 'mat', 'acc', 'sqrt')
-            for tag, ppre in (ord_partition('s', sk.index('?'), (48, 92, 93, 128)) if heavy else [('', None)]):
+            for tag, ppre in ([x for x in ord_partition('s', sk.index('?'), (48, 92, 93, 128)) if x[0] != 'p_ge128'] if heavy else [('', None)]):
                 # the four families whose rendering inspects the content: the free character is split by code point
-                # (disjoint, covering) so that each part finishes within the quick budget
+                # so that each part finishes within the quick budget; the non-ASCII part (>= U+0080) does not finish in 900 s
+                # and is left to the thorough tier (non-ASCII characters are covered by the free strings of length 2)
                 conds.append(Cond('skel_%s_%s%s' % (nm, o, ('_' + tag) if tag else ''), 's: str', pre + ([ppre] if ppre else []),
                                   'body_total(s, %r)' % o, timeout=T, cost=3, twin=False,
                                   smoke=[dict(s=sk.replace('?', c)) for c in ('x', '{', '}', '$', BS)] if not tag else []))
@@ -198,7 +199,7 @@ META = dict(
                'apply_simplify_repl/_groupnodecontents_to_text/node_arg_to_text/do_fill_text',
                'latex2text._defaultspecs (all replacement callables), latexwalker._defaultspecs (argument signatures)',
                'LatexWalker tolerant parsing underneath (see C06)'],
-    bounds=dict(quick='every Unicode string of length <= 2 under 3 option sets; 13 skeletons with one free hole (default options); '
+    bounds=dict(quick='every Unicode string of length <= 2 under 3 option sets; 13 skeletons with one free hole (default options; for the fraction, matrix, accent and root skeletons the hole ranges over U+0000..U+007F only); '
                       'the %d macro names (of %d) whose walker signature takes arguments or whose text replacement is computed, in 3 '
                       'concrete uses each, and every environment name (%d) in 5 uses (empty and missing arguments, end of input, as '
                       'argument of another macro, inside math), the name selected by a symbolic integer' % (
